@@ -316,9 +316,31 @@ func c18Rules(p *core.Prog, r *core.Run) {
 			fs := p.EdgeFacts(pr, s.Block())
 			isFirst, isCase := false, false
 			if len(fs) > 0 {
-				if fs[0].Op == "true" && fs[0].L.Op != "call" {
-					if _, okc := p.IsCellLoad(fs[0].G.Cond); okc {
-						isFirst = true
+				if (fs[0].Op == "true" || fs[0].Op == "false") && fs[0].L.Op != "call" {
+					// a "first target" flag: a boolean variable whose value on this
+					// edge (pol) is the one it is initialised with, outside the per-target
+					// code, and which is set to the opposite on the way to the send
+					if cell, okc := p.IsCellLoad(fs[0].G.Cond); okc {
+						pol := fs[0].Op == "true"
+						stores, calls := p.CellDefs(cell)
+						nInit, nFlip, nOther := 0, 0, 0
+						for _, st := range stores {
+							c, isC := st.Val.(*ssa.Const)
+							if !isC || c.Value == nil {
+								nOther++
+								continue
+							}
+							v := c.Value.String() == "true"
+							switch {
+							case v == pol && st.Parent() != s.Parent():
+								nInit++
+							case v != pol && (st.Block() == pr || st.Block() == s.Block()):
+								nFlip++
+							default:
+								nOther++
+							}
+						}
+						isFirst = nInit == 1 && nFlip == 1 && nOther == 0 && len(calls) == 0
 					}
 				}
 				if sl, ok := fs[0].L.Select(); ok {
